@@ -31,6 +31,20 @@ fn len_class(n: usize) -> &'static str {
     }
 }
 
+
+/// Scratch buffer capacity for an input: the documented minimum (exactly
+/// MAX_PACKETSIZE), one byte more, or larger than any packet, chosen
+/// deterministically from the input bytes.
+fn scratch_cap(bytes: &[u8]) -> usize {
+    match verif_harness::fnv1a(bytes) % 5 {
+        0 => 1400,
+        1 => 1401,
+        2 => 2048,
+        3 => 4096,
+        _ => 16384,
+    }
+}
+
 struct Outcome {
     accepted: bool,
 }
@@ -38,7 +52,7 @@ struct Outcome {
 fn check6(ctx: &mut Ctx, bytes: &[u8], hint: Option<bool>, origin: &str) -> Outcome {
     let case = json!({"version": "0.6", "bytes": hex(bytes), "hint": hint, "origin": origin});
     let class = format!("0.6|hint={:?}|len={}|{}", hint, len_class(bytes.len()), origin);
-    let mut can = Canary::new(2048, 0x5c);
+    let mut can = Canary::new(scratch_cap(bytes), 0x5c);
     let r = catch(|| {
         let mut w = Warnings::new();
         let scratch_range = can.range();
@@ -115,7 +129,7 @@ fn check6(ctx: &mut Ctx, bytes: &[u8], hint: Option<bool>, origin: &str) -> Outc
             let r2 = catch(|| {
                 let mut wbuf = [0u8; 1400];
                 let bytes2 = val.write(&mut wbuf[..])?;
-                let mut rbuf = [0u8; 2048];
+                let mut rbuf = [0u8; 1400];
                 let mut w = Warnings::new();
                 let back = p6::Packet::read(&mut w, &bytes2, val.has_token().or(hint), &mut rbuf[..]).map(|q| Pkt6::from_lib(&q)).map_err(|e| format!("reread:{:?}", e))?;
                 Ok::<_, String>((bytes2, back))
@@ -144,7 +158,7 @@ fn check6(ctx: &mut Ctx, bytes: &[u8], hint: Option<bool>, origin: &str) -> Outc
 fn check7(ctx: &mut Ctx, bytes: &[u8], origin: &str) -> Outcome {
     let case = json!({"version": "0.7", "bytes": hex(bytes), "origin": origin});
     let class = format!("0.7|len={}|{}", len_class(bytes.len()), origin);
-    let mut can = Canary::new(2048, 0x5c);
+    let mut can = Canary::new(scratch_cap(bytes), 0x5c);
     let r = catch(|| {
         let mut w = Warnings::new();
         let scratch_range = can.range();
@@ -218,7 +232,7 @@ fn check7(ctx: &mut Ctx, bytes: &[u8], origin: &str) -> Outcome {
             let r2 = catch(|| {
                 let mut wbuf = [0u8; 1400];
                 let bytes2 = val.write(&mut wbuf[..])?;
-                let mut rbuf = [0u8; 2048];
+                let mut rbuf = [0u8; 1400];
                 let mut w = Warnings::new();
                 let back = p7::Packet::read(&mut w, &bytes2, &mut rbuf[..]).map(|q| Pkt7::from_lib(&q)).map_err(|e| format!("reread:{:?}", e))?;
                 Ok::<_, String>((bytes2, back))
@@ -253,7 +267,7 @@ fn aux(ctx: &mut Ctx, bytes: &[u8], origin: &str) {
     }
     for v7 in [false, true] {
         let vn = if v7 { "0.7" } else { "0.6" };
-        let mut can = Canary::new(2048, 0x3a);
+        let mut can = Canary::new(scratch_cap(bytes), 0x3a);
         let r = catch(|| if v7 { p7::Packet::decompress_if_needed(bytes, can.window()).map_err(|e| format!("{:?}", e)) } else { p6::Packet::decompress_if_needed(bytes, can.window()).map_err(|e| format!("{:?}", e)) });
         match r {
             Err(p) => ctx.panic_violation("Packet::decompress_if_needed", &format!("{}|len={}", vn, lc), &p, case.clone()),
